@@ -5,6 +5,7 @@ import (
 	"encoding/json"
 	"encoding/xml"
 	"fmt"
+	"io"
 	"math"
 	"os"
 	"os/exec"
@@ -74,8 +75,79 @@ var c19Alphabet = []string{
 var c19Odd = []string{"gridn 0 \"red\"", "gridn -1 \"red\"", "gridn (0/0) \"red\"", "gridn 0.3 \"red\"", "width -1", "width (0/0)", "circle -1", "poly [1]", "ellipse 1 2", "ellipse 1 2 3 4 5 6",
 	"font {size:0}", "font {bogus:1}", "font {align:\"up\"}", "clear \"a\" \"b\"", "move (1/0) 5", "line (0/0) 5"}
 
+// c19RootAttrs: the style / width / height given for the top-level element appear on it verbatim (escaped), whatever characters they
+// contain, and the document stays well formed; the drawing itself is the same as without them.
+func c19RootAttrs(w *fw.Worker) {
+	vals := []string{"", "400", "50%", "border: 1px solid red", "a\"b&c<d>'e", "€ ü"}
+	for _, st := range vals {
+		for _, wd := range vals[:4] {
+			for _, ht := range []string{"", "30em"} {
+				in := map[string]string{"style": st, "width": wd, "height": ht}
+				w.Case(fmt.Sprint("rootattrs", st, "|", wd, "|", ht), func() *fw.Violation {
+					w.Nontrivial()
+					w.Count("root-attribute-cases", 1)
+					viol := func(sig, exp, obs string) *fw.Violation {
+						return &fw.Violation{Sub: "svg-root", Signature: sig, What: "attributes of the top-level svg element", Input: in, Expected: exp, Observed: obs}
+					}
+					var out bytes.Buffer
+					rt := cli.NewPlatform(cli.WithSVG(st, wd, ht), cli.WithOutputWriter(&out))
+					ev := evaluator.NewEvaluator(rt)
+					if err := ev.Run("circle 5\ntext \"t\"\n"); err != nil {
+						return viol("root-run-fails", "ok", err.Error())
+					}
+					var buf bytes.Buffer
+					if err := rt.WriteSVG(&buf); err != nil {
+						return viol("root-write-fails", "ok", err.Error())
+					}
+					dec := xml.NewDecoder(bytes.NewReader(buf.Bytes()))
+					got := map[string]string{}
+					first := true
+					for {
+						tok, err := dec.Token()
+						if err == io.EOF {
+							break
+						}
+						if err != nil {
+							return viol("not-well-formed", "well-formed XML", err.Error()+"\n"+fw.Trunc(buf.String(), 300))
+						}
+						if se, ok := tok.(xml.StartElement); ok && first {
+							first = false
+							if se.Name.Local != "svg" {
+								return viol("root-element", "svg", se.Name.Local)
+							}
+							for _, a := range se.Attr {
+								got[a.Name.Local] = a.Value
+							}
+						}
+					}
+					for k, v := range in {
+						if g, ok := got[k]; (v == "" && ok && g != "") || (v != "" && g != v) {
+							return viol("root-attribute:"+k, fmt.Sprintf("%s=%q", k, v), fmt.Sprintf("%q (present: %v)", g, ok))
+						}
+					}
+					plain, _, _ := runSVG([]string{"circle 5", "text \"t\""})
+					strip := func(doc string) string { // everything after the root start tag
+						if i := strings.Index(doc, ">"); i >= 0 {
+							return doc[i:]
+						}
+						return doc
+					}
+					if strings.ContainsAny(st+wd+ht, ">") {
+						return nil // the start tag's end cannot be located textually; the attribute comparison above is the check
+					}
+					if strip(buf.String()) != strip(plain) {
+						return viol("root-attrs-change-drawing", fw.Trunc(strip(plain), 300), fw.Trunc(strip(buf.String()), 300))
+					}
+					return nil
+				})
+			}
+		}
+	}
+}
+
 func runC19(w *fw.Worker) {
 	c19Endings(w)
+	c19RootAttrs(w)
 	depth := 3
 	if !w.Quick() {
 		depth = 4
